@@ -1252,32 +1252,32 @@ theorem encodeV_eq_any_history (vo : Gen.Variant) (text bytes : List Nat) (fuel 
   rw [Thm.C04.enc_history_eq_ref _ (Thm.C04.variant_elaws vo) _ _ _ hist]
   exact ⟨by rw [k1, erefHtml_eq], by rw [k2, anyUnmap_iff]⟩
 
-/- PENDING: `oneshot_no_unreachable` at full strength —
+/- Status of the items that were PENDING here:
 
-     theorem oneshot_no_unreachable (v : Gen.Variant) (bytes : List Nat) (budget : Budget) (cap : Nat)
-         (hcap : cap = max_utf8_buffer_length_without_replacement v (bytes.length - n))   -- n = validated prefix
-         (hadm : Admissible (famOfVariant v) .utf8 cap (call (famOfVariant v) .utf8 (famOfVariant v).init (bytes.drop n) true budget)) :
-         decodeWithoutBomHandlingAndWithoutReplacement v bytes budget ≠ .unreachable
+   * `oneshot_no_unreachable`: PROVED at full strength (section (e)), with `without_replacement_total` and
+     the explicit length precondition `3 * len + 13 ≤ usize::MAX` for the `.unwrap()` panics
+     (`without_replacement_panic_length`).
+   * termination of the two loops of `decode_without_bom_handling` for EVERY admissible stop policy: PROVED
+     (`decode_without_bom_handling_cap_returns`, fuel bound `10 * len + 10`; at most two rounds of the grow
+     loop: `Lemmas.OneShotCap.growLoopCap_returns` / `growLoopCap_two_rounds`; the replacement loop
+     terminates for every stop policy whatsoever: `replLoop_terminates_any`), in total form
+     `decode_without_bom_handling_cap_total` / `decode_cap_total` / `decode_with_bom_removal_cap_total`.
+   * `Encoding::encode`: modelled (`Model.OneShot.encode` / `encodeV` / `encodeLoop`, capacity arithmetic
+     included) and PROVED equal to the reference for every stop policy under which the model returns
+     (section (f)).
 
-   needs C07 (a call whose capacity is the worst-case query answer never returns `OutputFull`); the
-   worst-case formulas have no Lean model yet.  Proved instead: `no_unreachable_partial` (policy
-   "never stop") and `without_replacement_none_iff` for every policy under which the function returns.
-   On the implementation the arm is exercised by the harness on every generated input (a panic is an
-   oracle failure and a model disagreement).
+   Still partial:
 
-   PENDING: termination of the two loops of `decode_without_bom_handling` for EVERY admissible stop policy —
-
-     theorem decode_without_bom_handling_terminates_any (v : Gen.Variant) (bytes : List Nat) (bs : List (List Budget))
-         (hadm : every inner call admissible for the capacity in force; capacity ≥ 4 after the first reserve) :
-         ∃ fuel, decodeWithoutBomHandling v bytes fuel bs ≠ none
-
-   needs the capacities (C07 formulas) in the model plus C08 `outputFull_progress`.  Proved instead:
-   `decode_without_bom_handling_terminates` / `decode_terminates` / `decode_with_bom_removal_terminates`
-   (the never-stop policy, with the fuel `10 * len + 16` the driver uses, via a rank bound for all 13
-   families and `replLoop_terminates`) and `decode_without_bom_handling_total`; for every other policy the
-   theorems above are partial-correctness statements ("whenever the model returns").
-
-   PENDING: `Encoding::encode` — no Lean encoder model yet; covered by the harness oracle
-   (bytes / encoding used / had_unmappables = streaming `Encoder`, borrow iff documented, aliasing). -/
+   * `encode_terminates_partial` (not a theorem): that the loop of `encode` returns (does not exhaust the
+     fuel of the model) is NOT proved for any policy; `encodeV_eq_stream` etc. are partial-correctness
+     statements.  The argument would be: an `OutputFull` round of `encode_from_utf8` either wrote a numeric
+     character reference (consumed at least one character) or was entered with fewer than `NCR_EXTRA` spare
+     bytes and is followed by a `reserve_exact` that leaves at least `NCR_EXTRA + max…(rest)`; the driver
+     runs the model with fuel `10 * len + 16` on every generated input and would print `diverges`.
+   * the `.unwrap()` / `next_power_of_two` overflow behaviour of `encode` is modelled (`panic`) but no
+     length precondition excluding it is proved (the encoder formulas would need a bound like
+     `variantQuery_le`).
+   * `String::with_capacity` / `reserve` / `Vec::reserve_exact` are modelled by their documented contract
+     ("at least"), their own panics (capacity above `isize::MAX`, allocation failure) are outside the model. -/
 
 end EncodingRs.Thm.C11
